@@ -1,11 +1,14 @@
 package c03
 
 import (
+	"bufio"
 	"bytes"
 	"fmt"
 	"io"
 	"net"
+	"net/http"
 	"sync"
+	"sync/atomic"
 	"testing"
 	"time"
 
@@ -24,11 +27,16 @@ var (
 	sharedOnce  sync.Once
 	sharedProxy *netkit.Proxy
 	sharedErr   error
+	// served counts requests the shared origin received other than the liveness probe
+	served int64
 )
 
 func shared() (*netkit.Proxy, error) {
 	sharedOnce.Do(func() {
 		healthy := netkit.NewOrigin(func(r *netkit.ReqLog) netkit.Script {
+			if r.Path != "/third" {
+				atomic.AddInt64(&served, 1)
+			}
 			return netkit.Script{Raw: []byte(fmt.Sprintf("HTTP/1.1 200 OK\r\nContent-Length: %d\r\n\r\n%s", len(marker3), marker3)), CutAt: -1}
 		})
 		dialer := &netkit.Dialer{Route: func(addr string) string { return healthy.Addr }}
@@ -62,15 +70,32 @@ func feed(input []byte) (closedByProxy bool, v kit.Verdict) {
 	if err != nil {
 		return false, kit.Failf("C03/client-bytes/proxy-dead", "cannot connect: %v", err)
 	}
+	// Is the first message on the connection something the request parser rejects?
+	_, perr := http.ReadRequest(bufio.NewReader(bytes.NewReader(input)))
+	firstBad := perr != nil
+	before := atomic.LoadInt64(&served)
 	conn.SetWriteDeadline(time.Now().Add(2 * time.Second))
 	conn.Write(input)
 	if tc, ok := conn.(*net.TCPConn); ok {
 		tc.CloseWrite()
 	}
-	conn.SetReadDeadline(time.Now().Add(300 * time.Millisecond))
+	wait := 300 * time.Millisecond
+	if firstBad {
+		wait = kit.T()
+	}
+	conn.SetReadDeadline(time.Now().Add(wait))
 	_, rerr := io.Copy(io.Discard, conn)
 	closedByProxy = rerr == nil || netkit.IsReset(rerr)
 	conn.Close()
+	if firstBad {
+		// a request that cannot be read ends the connection: nothing behind it is served
+		if n := atomic.LoadInt64(&served) - before; n > 0 {
+			v.Addf("C03/client-bytes/malformed-first-message/later-bytes-served-as-requests", "the first message of the stream is rejected by the request parser (%v), yet %d request(s) from this connection reached the origin; input %q", perr, n, trunc(input, 160))
+		}
+		if !closedByProxy {
+			v.Addf("C03/client-bytes/malformed-first-message/timeout-connection-not-closed", "the first message of the stream is rejected by the request parser (%v) and the client half-closed, yet the proxy had not closed the connection after %v; input %q", perr, wait, trunc(input, 160))
+		}
+	}
 
 	cl, err := netkit.Dial(pr.Addr)
 	if err != nil {
@@ -92,7 +117,7 @@ func feed(input []byte) (closedByProxy bool, v kit.Verdict) {
 		}
 		return closedByProxy, kit.Failf("C03/client-bytes/fresh-connection-not-served", "after input %q a fresh connection got %v / %+v", trunc(input, 120), err, res)
 	}
-	return closedByProxy, nil
+	return closedByProxy, v
 }
 
 var validHeads = [][]byte{
